@@ -29,7 +29,11 @@ def four_index_events(n):
     evs = []
     for q in itertools.product(range(n), repeat=4):
         a = np.zeros((n, n, n, n))
-        set_four_index_element(a, *q, 7.5)
+        try:
+            set_four_index_element(a, *q, 7.5)
+        except Exception:  # noqa: BLE001
+            evs.append({"op": "FourIndex", "n": n, "q": list(q), "changed": []})
+            continue
         changed = [[int(x) for x in idx] for idx in np.argwhere(a != 0.0)]
         ok_val = bool(np.all(a[a != 0.0] == 7.5))
         evs.append({"op": "FourIndex", "n": n, "q": list(q), "changed": changed if ok_val else []})
@@ -43,7 +47,11 @@ def four_index_overwrite_events(n):
     for q in itertools.product(range(n), repeat=4):
         for value in (0.0, -2.25):
             a = np.full((n, n, n, n), 3.0)
-            set_four_index_element(a, *q, value)
+            try:
+                set_four_index_element(a, *q, value)
+            except Exception:  # noqa: BLE001
+                evs.append({"op": "FourIndex", "n": n, "q": list(q), "changed": [], "prefilled": True, "value": value})
+                continue
             changed = [[int(x) for x in idx] for idx in np.argwhere(a != 3.0)]
             ok_val = bool(np.all(a[a != 3.0] == value))
             evs.append({"op": "FourIndex", "n": n, "q": list(q), "changed": changed if ok_val else [], "prefilled": True, "value": value})
@@ -87,7 +95,14 @@ def volume_events(rmax, rng, cap):
     sets += triples
     evs = []
     for vs in sets:
-        v = float(volume(np.array(vs, dtype=float)))
+        try:
+            v = float(volume(np.array(vs, dtype=float)))
+        except Exception:  # noqa: BLE001 - the helper is total on 1-3 vectors: an exception is a verdict, not a harness failure
+            evs.append({"op": "Volume", "vecs": [list(x) for x in vs], "sq": -1, "exact": False, "nonneg": False})
+            continue
+        if not np.isfinite(v):
+            evs.append({"op": "Volume", "vecs": [list(x) for x in vs], "sq": -1, "exact": False, "nonneg": False})
+            continue
         sq = v * v
         evs.append({"op": "Volume", "vecs": [list(x) for x in vs], "sq": int(round(sq)), "exact": bool(abs(sq - round(sq)) < 1e-9),
                     "nonneg": bool(v >= 0.0)})
